@@ -88,7 +88,7 @@ Proof.
   unfold setter. destruct (valid_keys _ d); [| discriminate]. intros H. injection H as <-.
   assert (E : getd (process_items d []) s = written s d).
   { unfold getd, written. rewrite process_items_spec. simpl. destruct (last_opt (writes s d)); reflexivity. }
-  destruct mo as [m |]; [rewrite getd_fill_zeros |]; exact E.
+  unfold fill. destruct mo as [m |]; [rewrite getd_fill_zeros |]; exact E.
 Qed.
 
 (* ------------------------------------------------------------------ validate *)
@@ -150,9 +150,10 @@ Proof. reflexivity. Qed.
 Lemma standardize_items_spec (d : pydict) (acc o : out) (s : string) :
   standardize_items d acc = Ok o -> assoc s o = or_else (last_opt (writes s d)) (assoc s acc).
 Proof.
-  revert acc. induction d as [| [k v] t IH]; intros acc H; simpl in *.
-  - injection H as <-. reflexivity.
-  - destruct (String.eqb_spec k "defocus") as [-> | Hk].
+  revert acc. induction d as [| [k v] t IH]; intros acc H.
+  - simpl in H. injection H as <-. reflexivity.
+  - cbn [standardize_items] in H. cbn [writes].
+    destruct (String.eqb_spec k "defocus") as [-> | Hk].
     + destruct v as [| q | d']; try discriminate.
       rewrite (IH _ H). rewrite last_opt_app, <- or_else_assoc. f_equal.
       change (set "C10" (Qopp q) acc) with (apply_write (write_of "defocus" q) acc).
